@@ -520,6 +520,36 @@ func runC16(c *Ctx) error {
 			}
 		}
 	}
+	// ---- maps of custom fields: every value is expanded, whatever the other values of the map look like and in
+	// whatever order the map is walked (Go walks maps in a random order: the same document is parsed many times)
+	{
+		famF := c.Rep.Family("custom-field-maps", "deb.fields and ipk.fields with literal values and references side by side (8 entries), the same document parsed 60 times with ParseWithEnvMapping: every reference substituted, every literal as written, in every parse; non-trivial = always")
+		doc := "name: p\narch: amd64\nversion: 1.0.0\n"
+		for _, blk := range []string{"deb", "ipk"} {
+			doc += blk + ":\n  fields:\n    Bugs: https://example.com/bugs\n    Built-By: ${C16_WHO}\n    Origin: example\n    Vcs-Git: $C16_GIT\n    Comment: plain words\n    Source-Date: \"${C16_DATE}\"\n    Flag: \"yes\"\n    Who-Again: \"by ${C16_WHO}\"\n"
+		}
+		env := map[string]string{"C16_WHO": "builder-7", "C16_GIT": "git://example.com/x", "C16_DATE": "2024-01-02"}
+		want := map[string]string{"Bugs": "https://example.com/bugs", "Built-By": "builder-7", "Origin": "example", "Vcs-Git": "git://example.com/x", "Comment": "plain words", "Source-Date": "2024-01-02", "Flag": "yes", "Who-Again": "by builder-7"}
+	parses:
+		for i := 0; i < 60; i++ {
+			cfg, err := nfpm.ParseWithEnvMapping(strings.NewReader(doc), func(k string) string { return env[k] })
+			famF.Eval(fmt.Sprintf("parse-%d", i), true)
+			if err != nil {
+				c.Rep.Note("custom-field-maps: %v", err)
+				break
+			}
+			for blk, m := range map[string]map[string]string{"deb": cfg.Deb.Fields, "ipk": cfg.IPK.Fields} {
+				for k, w := range want {
+					if m[k] != w {
+						c.Rep.Find(report.Finding{Property: "C16", Family: "custom-field-maps", Shape: "custom-field-value-not-expanded-or-changed:" + blk,
+							What:  fmt.Sprintf("%s.fields[%s] = %q after parsing (parse %d of the same document), expected %q", blk, k, m[k], i+1, w),
+							Input: map[string]any{"document": doc, "mapping": env}})
+						break parses
+					}
+				}
+			}
+		}
+	}
 	return nil
 }
 
